@@ -27,6 +27,9 @@ var c02Pins = []pin{
 		"the free-variable collector visits every component of every type constructor unconditionally (type arguments and, through the info table, fields and case payloads of records and unions — generic or not), each named instance once"},
 	{"transTVFTypeWithSet", "nf", `match(p2; FType_FTypeVar -> p1(payload(FType_FTypeVar)); FType_FSlice -> New_FType_FSlice(SliceType{ElemType: transTVFTypeWithSet(p0, p1, payload(FType_FSlice).ElemType)}); FType_FTuple -> New_FType_FTuple(TupleType{ElemTypes: slice.Map(transTVFTypeWithSet(p0, p1, _), payload(FType_FTuple).ElemTypes)}); FType_FFieldAccess -> faResolve(FieldAccessType{RecType: transTVFTypeWithSet(p0, p1, payload(FType_FFieldAccess).RecType), FieldName: payload(FType_FFieldAccess).FieldName}); FType_FFunc -> newFFunc(slice.Map(transTVFTypeWithSet(p0, p1, _), payload(FType_FFunc).Targets)); FType_FParamd -> New_FType_FParamd(ParamdType{Name: payload(FType_FParamd).Name, Targs: slice.Map(transTVFTypeWithSet(p0, p1, _), payload(FType_FParamd).Targs)}); FType_FRecord -> if(#1(TMemoTryFind(p0, rtToKey(payload(FType_FRecord)))), #0(TMemoTryFind(p0, rtToKey(payload(FType_FRecord)))), seq[TMemoPut(p0, rtToKey(payload(FType_FRecord)), p2); TMemoPut(p0, rtToKey(payload(FType_FRecord)), New_FType_FRecord(newRecTypeWith(slice.Map(transTVFTypeWithSet(p0, p1, _), slice.Map(\x0. x0.Ftype, lookupRecInfo(payload(FType_FRecord)).Fields)), transTVFTypeWithSet(p0, p1, _), payload(FType_FRecord))))] New_FType_FRecord(newRecTypeWith(slice.Map(transTVFTypeWithSet(p0, p1, _), slice.Map(\x1. x1.Ftype, lookupRecInfo(payload(FType_FRecord)).Fields)), transTVFTypeWithSet(p0, p1, _), payload(FType_FRecord)))); FType_FUnion -> if(#1(TMemoTryFind(p0, uniToKey(payload(FType_FUnion)))), #0(TMemoTryFind(p0, uniToKey(payload(FType_FUnion)))), seq[TMemoPut(p0, uniToKey(payload(FType_FUnion)), p2); updateUniInfo(UnionType{Name: payload(FType_FUnion).Name, Targs: slice.Map(transTVFTypeWithSet(p0, p1, _), payload(FType_FUnion).Targs)}, UnionTypeInfo{Cases: slice.Map(\x2. newNTPair(#0(x2), #1(x2)), slice.Zip(slice.Map(\x3. x3.Name, utCases(payload(FType_FUnion))), slice.Map(transTVFTypeWithSet(p0, p1, _), slice.Map(\x4. x4.Ftype, utCases(payload(FType_FUnion))))))}); TMemoPut(p0, uniToKey(payload(FType_FUnion)), New_FType_FUnion(UnionType{Name: payload(FType_FUnion).Name, Targs: slice.Map(transTVFTypeWithSet(p0, p1, _), payload(FType_FUnion).Targs)}))] New_FType_FUnion(UnionType{Name: payload(FType_FUnion).Name, Targs: slice.Map(transTVFTypeWithSet(p0, p1, _), payload(FType_FUnion).Targs)})); _ -> p2)`,
 		"the substitution rebuilds every component of every type constructor (element-wise images), memoised per named instance with the placeholder discipline"},
+	{"transStmt", "nf", `match(p2; Stmt_SLetVarDef -> match(payload(Stmt_SLetVarDef); LLetVarDef_LLOneVarDef -> New_Stmt_SLetVarDef(New_LLetVarDef_LLOneVarDef(LetVarDef{Lvar: p0(payload(LLetVarDef_LLOneVarDef).Lvar), Rhs: p1(payload(LLetVarDef_LLOneVarDef).Rhs)})); LLetVarDef_LLDestVarDef -> New_Stmt_SLetVarDef(New_LLetVarDef_LLDestVarDef(LetDestVarDef{Lvars: slice.Map(p0, payload(LLetVarDef_LLDestVarDef).Lvars), Rhs: p1(payload(LLetVarDef_LLDestVarDef).Rhs)})); _ -> never); Stmt_SExprStmt -> New_Stmt_SExprStmt(p1(payload(Stmt_SExprStmt))); _ -> never)`,
+		"a substitution over a statement reaches the variable(s) it binds — the single one and every destructured one — and its right-hand side (a bound variable left with its parse-time type variable is hoisted as a type parameter that occurs nowhere in the signature)"},
+	{"transBlock", "nf", `Block{Stmts: slice.Map(p1, p2.Stmts), FinalExpr: p0(p2.FinalExpr)}`, "a substitution over a block reaches every statement and the final expression"},
 	{"collectExprRel", "nf", `match(p0; Expr_EFunCall -> slice.Append(slice.Concat(slice.Map(collectExprRel, payload(Expr_EFunCall).Args)), collectFunCall(payload(Expr_EFunCall))); Expr_EBinOpCall -> slice.Concat([collectExprRel(payload(Expr_EBinOpCall).Lhs), collectExprRel(payload(Expr_EBinOpCall).Rhs), unifyType(ExprToType(payload(Expr_EBinOpCall).Lhs), ExprToType(payload(Expr_EBinOpCall).Rhs)), match(payload(Expr_EBinOpCall).Rtype; FType_FBool -> emptyRels(); _ -> unifyType(payload(Expr_EBinOpCall).Rtype, ExprToType(payload(Expr_EBinOpCall).Lhs)))]); Expr_ETupleExpr -> slice.Concat(slice.Map(collectExprRel, payload(Expr_ETupleExpr))); Expr_ELambda -> collectBlock(collectExprRel, collectStmtRel(collectExprRel, _), payload(Expr_ELambda).Body); Expr_ESlice -> slice.Append(slice.Concat(slice.Map(collectExprRel, payload(Expr_ESlice))), collectSlice(payload(Expr_ESlice))); Expr_ERecordGen -> slice.Append(slice.Concat(slice.Map(collectExprRel, slice.Map(\x0. x0.Expr, payload(Expr_ERecordGen).FieldsNV))), slice.Concat(slice.Map(recNTUnify(payload(Expr_ERecordGen).RecordType, _), slice.Map(NEPToNT, payload(Expr_ERecordGen).FieldsNV)))); Expr_ELazyBlock -> collectBlock(collectExprRel, collectStmtRel(collectExprRel, _), payload(Expr_ELazyBlock).Block); Expr_EReturnableExpr -> match(payload(Expr_EReturnableExpr); ReturnableExpr_RBlock -> collectBlock(collectExprRel, collectStmtRel(collectExprRel, _), payload(ReturnableExpr_RBlock)); ReturnableExpr_RMatchExpr -> slice.Append(collectExprRel(payload(ReturnableExpr_RMatchExpr).Target), slice.Concat(slice.Map(collectBlock(collectExprRel, collectStmtRel(collectExprRel, _), _), mrsToBlocks(payload(ReturnableExpr_RMatchExpr).Rules)))); _ -> never); _ -> emptyRels())`,
 		"constraint generation per expression kind: sub-expressions first; a binary operator relates its operands to each other and — unless its result is bool (a comparison constrains nothing further) — its result to them; slices, record literals, calls and matches add their own anchor relations"},
 	// numbering of leftover variables: first occurrence in the function type (parameters then result), then parameters, then body
@@ -178,6 +181,8 @@ func checkC02(c *Ctx) {
 			"collectTVarFType", "collectTVarFTypeWithSet", "transTVFType", "transTVFTypeWithSet", "resolveOneTypeVar", "resolveType", "resolveExprType", "GenFunc", "GenFuncVar", "GenRecordType", "GenRecordTypeByTgen", "GenUnionType", "tpreplace", "hoistTVar", "New_FType_FTypeVar"), 40)
 	// (b)
 	checkTraversals(c, f, "C02.b")
+	r.Rule("C02.k", "every recursive traversal of the type structure has an arm for each composite constructor (imported from C15.j: a type variable below a constructor without an arm is neither collected nor substituted)", 3)
+	checkTypeTraversalsComplete(c, f, "C02.k")
 	// (c)
 	c.checkPins(f, "C02.c", c02Pins)
 	// (h)
